@@ -16,6 +16,7 @@ import (
 func init() {
 	mon.Register(&mon.Check{
 		ID:        "C01",
+		Boost:     3,
 		Batches:   func(tier string) int { return 16 },
 		Run:       runC01,
 		Technique: "reference-model runtime monitor: every value is encoded by the library and by an independent table-driven RFC 8907 codec and the bytes compared; reference bytes are decoded by the library and the fields compared",
